@@ -58,6 +58,11 @@ def real_objdump_cases(rnd, tier, prop):
     if prop in ("C09", "C10"):
         obj = objdump.assemble(objdump.template_source(rnd, sz["templates"]), "tmpl")
         texts.append(("assembled AT&T templates", objdump.objdump_text(obj)))
+    if prop in ("C08", "C10"):
+        # segment overrides with an index, AVX-512 broadcast / mask decorations, x87 stack registers, string
+        # instructions with two memory operands, prefixes, indirect branches, long nops ...
+        obj = objdump.assemble(objdump.template_source(rnd, sz["templates"] // 2, extended=True), "tmplx")
+        texts.append(("assembled extended templates", objdump.objdump_text(obj)))
     chunks = []
     for origin, text in texts:
         lines = text.split("\n")
